@@ -38,7 +38,7 @@ def fnv64(b):
 def show_bytes(b, full=False):
     if len(b) == 0:
         return "."
-    if len(b) <= 48 or full:
+    if len(b) <= 200 or full:
         return b.hex()
     return f"{b[:16].hex()}#{len(b)}:{fnv64(b):016x}"
 
